@@ -14,7 +14,16 @@ use hickory_net::xfer::Protocol;
 use hickory_proto::op::{Message, OpCode, Query, ResponseCode};
 use hickory_proto::rr::TSigner;
 use hickory_proto::rr::rdata::tsig::TsigAlgorithm;
-use hickory_server::server::Request;
+use futures_util::{FutureExt, StreamExt};
+use hickory_net::runtime::Time;
+use hickory_net::BufDnsStreamHandle;
+use hickory_proto::dnssec::rdata::DNSKEY;
+use hickory_proto::dnssec::{crypto::Ed25519SigningKey, DnssecSigner, SigningKey};
+use hickory_proto::rr::LowerName;
+use hickory_server::dnssec::NxProofKind;
+use hickory_server::server::{Request, RequestHandler, ResponseHandle};
+use hickory_server::zone_handler::Catalog;
+use std::sync::Arc;
 use hickory_server::zone_handler::ZoneHandler;
 use hickory_proto::rr::rdata::SOA;
 use hickory_proto::rr::{DNSClass, Name, RData, Record, RecordType};
@@ -150,11 +159,15 @@ pub fn rt() -> tokio::runtime::Runtime {
 }
 
 pub fn new_handler(origin: &Name, recs: &[Record]) -> Handler {
-    let mut mem = InMemoryZoneHandler::<TokioRuntimeProvider>::empty(origin.clone(), ZoneType::Primary, AxfrPolicy::Deny, None);
+    new_handler_as(origin, recs, ZoneType::Primary, true)
+}
+
+pub fn new_handler_as(origin: &Name, recs: &[Record], zone_type: ZoneType, allow_update: bool) -> Handler {
+    let mut mem = InMemoryZoneHandler::<TokioRuntimeProvider>::empty(origin.clone(), zone_type, AxfrPolicy::Deny, None);
     for r in recs {
         mem.upsert_mut(r.clone(), 0);
     }
-    let mut h = SqliteZoneHandler::new(mem, AxfrPolicy::Deny, true, false);
+    let mut h = SqliteZoneHandler::new(mem, AxfrPolicy::Deny, allow_update, false);
     h.set_tsig_signers(vec![signer()]);
     h
 }
@@ -285,6 +298,114 @@ pub fn build_request(origin: &Name, pre: &[Record], upd: &[Record], signer: &TSi
         return None;
     }
     Request::from_bytes(bytes, "127.0.0.1:5300".parse().unwrap(), Protocol::Udp).ok()
+}
+
+/// the clock of the `Catalog` path: the fixed instant the messages are signed at
+pub struct FixedTime;
+
+#[async_trait::async_trait]
+impl Time for FixedTime {
+    async fn delay_for(duration: std::time::Duration) {
+        tokio::time::sleep(duration).await
+    }
+    async fn timeout<F: 'static + std::future::Future + Send>(duration: std::time::Duration, future: F) -> Result<F::Output, std::io::Error> {
+        tokio::time::timeout(duration, future).await.map_err(|_| std::io::Error::new(std::io::ErrorKind::TimedOut, "timeout"))
+    }
+    fn current_time() -> u64 {
+        NOW
+    }
+}
+
+/// an UPDATE message on the wire for the `Catalog` entry point.  `kind`: ok (signed with the configured key) | unsigned |
+/// badkey (signed with a key the server does not know) | ztype (zone section of type A) | nozone (a zone the catalog
+/// does not serve)
+pub fn catalog_message(origin: &Name, pre: &[Record], upd: &[Record], kind: &str) -> Option<Vec<u8>> {
+    let zname = if kind == "nozone" { Name::from_ascii("example.org.").unwrap() } else { origin.clone() };
+    let mut zone = Query::new(zname, if kind == "ztype" { RecordType::A } else { RecordType::SOA });
+    zone.set_query_class(DNSClass::IN);
+    let mut m = Message::query();
+    m.id = 4712;
+    m.op_code = OpCode::Update;
+    m.recursion_desired = false;
+    m.add_query(zone);
+    m.add_answers(pre.iter().cloned());
+    m.add_authorities(upd.iter().cloned());
+    match kind {
+        "unsigned" => {}
+        "badkey" => {
+            let other = TSigner::new(b"ffffffffffffffffffffffffffffffff".to_vec(), TsigAlgorithm::HmacSha256, Name::from_ascii("other-key.").unwrap(), 300).ok()?;
+            m.finalize(&other, NOW).ok()?;
+        }
+        "badsig" => {
+            // the configured key name, another secret
+            let other = TSigner::new(b"ffffffffffffffffffffffffffffffff".to_vec(), TsigAlgorithm::HmacSha256, Name::from_ascii("update-key.").unwrap(), 300).ok()?;
+            m.finalize(&other, NOW).ok()?;
+        }
+        "expired" => {
+            m.finalize(&signer(), NOW - 100_000).ok()?;
+        }
+        _ => {
+            m.finalize(&signer(), NOW).ok()?;
+        }
+    }
+    let bytes = m.to_vec().ok()?;
+    let back = Message::from_vec(&bytes).ok()?;
+    if back.truncation || back.answers.len() != pre.len() || back.authorities.len() != upd.len() {
+        return None;
+    }
+    Some(bytes)
+}
+
+/// the server's real dispatch: `Catalog::handle_request` → `Catalog::update` → `ZoneHandler::update`; the rcode of the response
+pub fn run_update_catalog(rt: &tokio::runtime::Runtime, cat: &Catalog, bytes: Vec<u8>) -> String {
+    let src: std::net::SocketAddr = "127.0.0.1:5300".parse().unwrap();
+    let r = catch(|| {
+        rt.block_on(async {
+            let Ok(req) = Request::from_bytes(bytes, src, Protocol::Tcp) else { return "undecodable".to_string() };
+            let (handle, mut rx) = BufDnsStreamHandle::new(src);
+            cat.handle_request::<ResponseHandle, FixedTime>(&req, ResponseHandle::new(src, handle, Protocol::Tcp)).await;
+            match rx.next().now_or_never() {
+                Some(Some(m)) => match Message::from_vec(&m.into_parts().0) {
+                    Ok(resp) => match resp.response_code {
+                        ResponseCode::NoError => "NOERROR".to_string(),
+                        c => rc_tok(c).to_string(),
+                    },
+                    Err(_) => "undecodable-response".to_string(),
+                },
+                _ => "no-response".to_string(),
+            }
+        })
+    });
+    r.unwrap_or_else(|_| "panic".to_string())
+}
+
+/// a DNSSEC-enabled handler (`is_dnssec_enabled`, one Ed25519 zone signing key, NSEC chain): `update_records` then
+/// goes through `secure_zone()` (regenerate NSEC, bump the serial, re-sign) instead of `increment_soa_serial`
+pub fn new_dnssec_handler(origin: &Name, recs: &[Record], nsec3: bool) -> Option<Handler> {
+    let nx = if nsec3 {
+        NxProofKind::Nsec3 { algorithm: hickory_proto::dnssec::Nsec3HashAlgorithm::SHA1, salt: Arc::from(vec![0xAAu8, 0xBB]), iterations: 1, opt_out: false }
+    } else {
+        NxProofKind::Nsec
+    };
+    let mut mem = InMemoryZoneHandler::<TokioRuntimeProvider>::empty(origin.clone(), ZoneType::Primary, AxfrPolicy::Deny, Some(nx));
+    for r in recs {
+        mem.upsert_mut(r.clone(), 0);
+    }
+    let pk = Ed25519SigningKey::generate_pkcs8().ok()?;
+    let key = Ed25519SigningKey::from_pkcs8(&pk).ok()?;
+    let signer_ = DnssecSigner::new(DNSKEY::from_key(&key.to_public_key().ok()?), Box::new(key), origin.clone(), std::time::Duration::from_secs(86400));
+    mem.add_zone_signing_key_mut(signer_).ok()?;
+    mem.secure_zone_mut().ok()?;
+    let mut h = SqliteZoneHandler::new(mem, AxfrPolicy::Deny, true, true);
+    h.set_tsig_signers(vec![signer()]);
+    Some(h)
+}
+
+/// the records the DNSSEC machinery itself maintains are not the UPDATE's business: the oracle looks at the rest
+fn without_dnssec(mut s: Snap) -> Snap {
+    // (the zone's DNSKEY / NSEC3PARAM are ordinary data an UPDATE may delete; NSEC / NSEC3 / RRSIG are regenerated)
+    s.rrs.retain(|r| ![46u16, 47, 50, 51].contains(&r.rtype));
+    s
 }
 
 /// the whole `ZoneHandler::update` (authorise → prerequisites → prescan → apply)
@@ -532,6 +653,8 @@ fn as_set(z: &[RR], mask_serial_at: Option<&str>) -> BTreeSet<RR> {
 
 pub const CL_PRE_LOOKUP: &str = "prereq-uses-query-lookup";
 pub const CL_PRE_SUBSET: &str = "prereq-value-dependent-subset";
+/// DNSSEC-enabled zone with an NSEC3 chain: the second `secure_zone()` trips `debug_assert!(upserted)` in `nsec3_zone`
+pub const CL_NSEC3: &str = "nsec3-zone-update-debug-assert";
 pub const T_NULL: u16 = 10;
 pub const T_MAILB: u16 = 253;
 pub const T_MAILA: u16 = 254;
@@ -633,6 +756,13 @@ pub fn check_invariants(after: &Snap, zname: &str) -> Vec<(&'static str, String)
 }
 
 pub fn judge(origin: &Name, before: &Snap, after: &Snap, pre: &[Record], upd: &[Record], stage: &str, res: &str) -> Verdict {
+    judge_with(origin, before, after, pre, upd, stage, res, &before.rrs)
+}
+
+/// `touch_rrs`: the zone on which "did any Update RR change anything" is decided (on a DNSSEC-enabled zone: including the
+/// NSEC / NSEC3 records the server keeps there — deleting them is a change even though they come back)
+#[allow(clippy::too_many_arguments)]
+pub fn judge_with(origin: &Name, before: &Snap, after: &Snap, pre: &[Record], upd: &[Record], stage: &str, res: &str, touch_rrs: &[RR]) -> Verdict {
     let zname = name_tok(&lower_name(origin));
     let pre_m: Vec<MRR> = pre.iter().map(|r| mrr(origin, r)).collect();
     let upd_m: Vec<MRR> = upd.iter().map(|r| mrr(origin, r)).collect();
@@ -701,7 +831,8 @@ pub fn judge(origin: &Name, before: &Snap, after: &Snap, pre: &[Record], upd: &[
         let mut cur = before.serial;
         let mut steps = 0;
         for r in upd_m.iter().filter(|r| r.class == C_IN && r.rtype == T_SOA && r.name == zname) {
-            let ns = (RR { name: String::new(), rtype: T_SOA, ttl: 0, rd: r.rd.clone() }).soa_serial().unwrap_or(0);
+            // (an "SOA" RR without RDATA sets nothing)
+            let Some(ns) = (RR { name: String::new(), rtype: T_SOA, ttl: 0, rd: r.rd.clone() }).soa_serial() else { continue };
             if serial_lt(cur, ns) {
                 cur = ns;
                 steps += 1;
@@ -715,7 +846,7 @@ pub fn judge(origin: &Name, before: &Snap, after: &Snap, pre: &[Record], upd: &[
         }
         // "unchanged": no single Update RR changes the zone under any accepted reading of §3.4.2 (a message
         // whose RRs change the zone and undo it again may or may not bump the serial)
-        let touched = VARIANTS.iter().any(|v| ref_apply_steps(&before.rrs, &zname, &upd_m, *v).1);
+        let touched = VARIANTS.iter().any(|v| ref_apply_steps(touch_rrs, &zname, &upd_m, *v).1);
         if !changed && !touched && after.serial != before.serial && !(explicit_soa && accepted && adv) {
             fails.push((format!("zone content unchanged but the SOA serial moved ({} → {})", before.serial, after.serial), cls.into()));
         }
@@ -730,7 +861,15 @@ pub fn judge(origin: &Name, before: &Snap, after: &Snap, pre: &[Record], upd: &[
 pub struct Hist {
     pub rt: tokio::runtime::Runtime,
     pub origin: Name,
-    pub h: Option<Handler>,
+    pub h: Option<Arc<Handler>>,
+    /// the catalog that serves `h` (entry point of `updc`)
+    pub cat: Option<Catalog>,
+    /// the history runs on a DNSSEC-enabled handler: no model side (`begind`)
+    pub dnssec: bool,
+    /// … with an NSEC3 chain (`begind3`), and an update of this history has panicked
+    pub nsec3: bool,
+    pub panicked: bool,
+    pub initial: Vec<Record>,
     /// fed every message through the three public calls; `updf` compares the real `update()` with it
     pub twin: Option<Handler>,
     pub changes: u32,
@@ -754,17 +893,132 @@ pub fn exec(line: &str, hist: &mut Hist, rec: &mut Recorder) {
                 rec.stat("skipped.unparsable-case");
                 return;
             };
-            let h = new_handler(&o, &rs);
+            let h = Arc::new(new_handler(&o, &rs));
             let s = snapshot(&hist.rt, &h);
             rec.case(line.to_string(), format!("begin {} 0 {}", s.serial, s.dump));
             hist.twin = Some(new_handler(&o, &rs));
+            let mut cat = Catalog::new();
+            cat.upsert(LowerName::new(&o), vec![h.clone() as Arc<dyn ZoneHandler>]);
+            hist.cat = Some(cat);
+            hist.dnssec = false;
+            hist.nsec3 = false;
+            hist.panicked = false;
+            hist.initial = rs.clone();
             hist.origin = o;
             hist.h = Some(h);
             hist.changes = 0;
             rec.stat("op.begin");
         }
+        ["begind", origin, recs @ ..] | ["begind3", origin, recs @ ..] => {
+            // DNSSEC-enabled store variant: implementation vs oracle only
+            let (Some(o), Some(rs)) = (parse_name(origin), recs.iter().map(|x| parse_rec(x)).collect::<Option<Vec<_>>>()) else {
+                rec.stat("skipped.unparsable-case");
+                return;
+            };
+            let Some(h) = new_dnssec_handler(&o, &rs, t[0] == "begind3") else {
+                rec.stat("skipped.dnssec-handler");
+                return;
+            };
+            rec.impl_only += 1;
+            rec.case(line.to_string(), "~".into());
+            hist.twin = None;
+            hist.cat = None;
+            hist.dnssec = true;
+            hist.nsec3 = t[0] == "begind3";
+            hist.panicked = false;
+            hist.origin = o;
+            hist.h = Some(Arc::new(h));
+            hist.changes = 0;
+            rec.stat("op.begind");
+        }
+        ["updc", kind, rest @ ..] => {
+            // through the server's dispatch: Catalog::handle_request → Catalog::update → ZoneHandler::update
+            let (Some(h), Some(cat), Some((p, u))) = (hist.h.as_ref(), hist.cat.as_ref(), split_pu(rest)) else {
+                rec.stat("skipped.unparsable-case");
+                return;
+            };
+            let Some(bytes) = catalog_message(&hist.origin, &p, &u, kind) else {
+                rec.stat("skipped.unencodable-message");
+                return;
+            };
+            if *kind == "noupdate" || *kind == "secondary" || *kind == "external" {
+                // a catalog of its own whose handler does not take updates at all / is not a primary
+                let zt = match *kind { "secondary" => ZoneType::Secondary, "external" => ZoneType::External, _ => ZoneType::Primary };
+                let other = Arc::new(new_handler_as(&hist.origin, &hist.initial, zt, *kind != "noupdate"));
+                let mut c2 = Catalog::new();
+                c2.upsert(LowerName::new(&hist.origin), vec![other.clone() as Arc<dyn ZoneHandler>]);
+                let Some(bytes) = catalog_message(&hist.origin, &p, &u, "ok") else { return };
+                let before = snapshot(&hist.rt, &other);
+                let res = run_update_catalog(&hist.rt, &c2, bytes);
+                let after = snapshot(&hist.rt, &other);
+                rec.stat("op.updc");
+                rec.stat(&format!("updc.{kind}.{res}"));
+                rec.impl_only += 1;
+                let idx = rec.case(line.to_string(), "~".into());
+                let expect = match *kind { "secondary" => "NOTIMP", "external" => "NOTAUTH", _ => "REFUSED" };
+                if res != expect {
+                    rec.fail(idx, format!("an UPDATE for a zone that takes none ({kind}) was answered {res}, expected {expect}"), "");
+                }
+                if before != after {
+                    rec.fail(idx, format!("an UPDATE for a zone that takes none ({kind}) changed the zone"), "");
+                }
+                return;
+            }
+            let before = snapshot(&hist.rt, h);
+            let res = run_update_catalog(&hist.rt, cat, bytes);
+            let after = snapshot(&hist.rt, h);
+            rec.stat("op.updc");
+            rec.stat(&format!("updc.{kind}.{res}"));
+            match *kind {
+                "ok" => {
+                    let Some(tw) = hist.twin.as_ref() else { return };
+                    let (tstage, tres) = run_update(&hist.rt, tw, &p, &u);
+                    let tafter = snapshot(&hist.rt, tw);
+                    let idx = rec.case(line.to_string(), format!("cat {res} {} 0 {}", after.serial, after.dump));
+                    let want = if tres.starts_with("ok") { "NOERROR" } else { tres.as_str() };
+                    if res != want || after != tafter {
+                        rec.fail(idx, format!("the response to the UPDATE sent through the Catalog has rcode {res} (serial {}); verify_prerequisites → pre_scan → update_records gives {tstage}/{tres} (serial {}) or leaves a different zone", after.serial, tafter.serial), "");
+                    }
+                    let as_res = if res == "NOERROR" { tres.clone() } else { res.clone() };
+                    let v = judge(&hist.origin, &before, &after, &p, &u, tstage, &as_res);
+                    if v.changed {
+                        hist.changes += 1;
+                    }
+                    if v.changed || hist.changes > 0 {
+                        rec.nontrivial(idx);
+                    }
+                    for (what, class) in v.fails {
+                        rec.stat(&format!("oracle.fail.{}", if class.is_empty() { "UNCLASSIFIED" } else { &class }));
+                        rec.fail(idx, what, &class);
+                    }
+                }
+                "unsigned" => {
+                    // modelled: `update` with authorisation refused
+                    let idx = rec.case(line.to_string(), format!("cat {res} {} 0 {}", after.serial, after.dump));
+                    if res != "REFUSED" {
+                        rec.fail(idx, format!("an unsigned UPDATE was answered {res}, not REFUSED"), "");
+                    }
+                    if before != after {
+                        rec.fail(idx, "an unsigned UPDATE changed the zone".to_string(), "");
+                    }
+                }
+                _ => {
+                    // no model side: whatever is answered, nothing may change, and never NOERROR
+                    rec.impl_only += 1;
+                    let idx = rec.case(line.to_string(), "~".into());
+                    if before != after {
+                        rec.fail(idx, format!("an UPDATE that must be rejected ({kind}) changed the zone"), "");
+                    }
+                    let expect = match *kind { "badkey" | "badsig" | "expired" => "NOTAUTH", "ztype" => "FORMERR", _ => "" };
+                    if res == "NOERROR" || res == "panic" || res == "no-response" || (!expect.is_empty() && res != expect) {
+                        rec.fail(idx, format!("an UPDATE that must be rejected ({kind}) was answered {res}{}", if expect.is_empty() { String::new() } else { format!(", expected {expect}") }), "");
+                    }
+                }
+            }
+        }
         ["end"] => {
             rec.case(line.to_string(), "end".into());
+            hist.cat = None;
             hist.h = None;
             hist.twin = None;
         }
@@ -811,8 +1065,16 @@ pub fn exec(line: &str, hist: &mut Hist, rec: &mut Recorder) {
             if let Some(tw) = hist.twin.as_ref() {
                 let _ = run_update(&hist.rt, tw, &p, &u);
             }
-            let idx = rec.case(line.to_string(), format!("{stage} {res} {} 0 {}", after.serial, after.dump));
-            let v = judge(&hist.origin, &before, &after, &p, &u, stage, &res);
+            let full_before = before.rrs.clone();
+            let (before, after) = if hist.dnssec { (without_dnssec(before), without_dnssec(after)) } else { (before, after) };
+            let idx = if hist.dnssec {
+                rec.impl_only += 1;
+                rec.stat("upd.on-dnssec-enabled-zone");
+                rec.case(line.to_string(), "~".into())
+            } else {
+                rec.case(line.to_string(), format!("{stage} {res} {} 0 {}", after.serial, after.dump))
+            };
+            let v = judge_with(&hist.origin, &before, &after, &p, &u, stage, &res, &full_before);
             rec.stat("op.upd");
             rec.stat(&format!("upd.{stage}.{res}"));
             rec.stat(&format!("upd.size.prereq{}.update{}", p.len().min(3), u.len().min(5)));
@@ -832,7 +1094,12 @@ pub fn exec(line: &str, hist: &mut Hist, rec: &mut Recorder) {
             if v.changed || hist.changes > 0 {
                 rec.nontrivial(idx);
             }
+            if hist.nsec3 && res == "panic" {
+                hist.panicked = true;
+            }
             for (what, class) in v.fails {
+                // on an NSEC3 zone the panic — and what the half-finished `secure_zone()` leaves behind — is the known finding
+                let class = if class.is_empty() && hist.nsec3 && hist.panicked { CL_NSEC3.to_string() } else { class };
                 rec.stat(&format!("oracle.fail.{}", if class.is_empty() { "UNCLASSIFIED" } else { &class }));
                 rec.fail(idx, what, &class);
             }
@@ -900,7 +1167,9 @@ fn n(s: &str) -> Name {
     Name::from_ascii(s).unwrap()
 }
 
-pub const NAMES_IN: [&str; 10] = [
+pub const NAMES_IN: [&str; 12] = [
+    "alias2.example.com.",
+    "loop.example.com.",
     "example.com.",
     "a.example.com.",
     "b.example.com.",
@@ -943,6 +1212,10 @@ fn rdata_for(rng: &mut Rng, t: u16) -> RData {
             let t = *rng.pick(&["ns1.example.com.", "ns2.example.com.", "ns.sub.example.com."]);
             RData::NS(NS(n(&cased(rng, t))))
         }
+        15 => {
+            let t = *rng.pick(&["a.example.com.", "b.example.com.", "mail.other.org."]);
+            RData::MX(hickory_proto::rr::rdata::MX::new(10, n(t)))
+        }
         T_CNAME => {
             let t = *rng.pick(&["a.example.com.", "b.example.com."]);
             RData::CNAME(CNAME(n(&cased(rng, t))))
@@ -966,7 +1239,7 @@ fn pick_name(rng: &mut Rng) -> &'static str {
 }
 
 fn pick_type(rng: &mut Rng) -> u16 {
-    *rng.pick(&[T_A, T_A, T_TXT, T_NS, T_CNAME, T_AAAA, T_SOA])
+    *rng.pick(&[T_A, T_A, T_A, T_TXT, T_TXT, T_NS, T_NS, T_CNAME, T_CNAME, T_AAAA, T_AAAA, T_SOA, T_SOA, 15])
 }
 
 fn pick_ttl(rng: &mut Rng) -> u32 {
@@ -1011,6 +1284,26 @@ pub fn gen_zone(rng: &mut Rng) -> Vec<Record> {
     if rng.chance(1, 3) {
         z.push(mk("*.w.example.com.", 300, RData::TXT(TXT::new(vec!["t1".to_string()]))));
     }
+    if rng.chance(1, 4) {
+        // CNAME chain, a CNAME loop, a CNAME out of the zone (what `chase_cnames` walks), DS at the delegation
+        z.push(mk("alias2.example.com.", 300, RData::CNAME(CNAME(n("alias.example.com.")))));
+        z.push(mk("loop.example.com.", 300, RData::CNAME(CNAME(n("loop.example.com.")))));
+        if rng.chance(1, 3) {
+            // longer than `chase_cnames` follows (MAX_CNAME_DEPTH = 8): loop → c1 → … → c9 → a
+            z.pop();
+            z.push(mk("loop.example.com.", 300, RData::CNAME(CNAME(n("c1.example.com.")))));
+            for i in 1..=9 {
+                let to = if i == 9 { "a.example.com.".to_string() } else { format!("c{}.example.com.", i + 1) };
+                z.push(mk(&format!("c{i}.example.com."), 300, RData::CNAME(CNAME(n(&to)))));
+            }
+        }
+        if rng.chance(1, 2) {
+            z.push(mk("www.example.com.", 300, RData::CNAME(CNAME(n("other.org.")))));
+        }
+        if let Some(ds) = usable_types("sub.example.com.").into_iter().find(|t| t.contains(",43,")) {
+            z.push(parse_rec(&ds).expect("ds"));
+        }
+    }
     if rng.chance(1, 25) {
         let mut r = gen_large(rng);
         r.dns_class = DNSClass::IN;
@@ -1018,6 +1311,72 @@ pub fn gen_zone(rng: &mut Rng) -> Vec<Record> {
         z.push(r);
     }
     z
+}
+
+fn wire_name(s: &str) -> String {
+    let mut b = vec![];
+    for l in s.trim_end_matches('.').split('.').filter(|l| !l.is_empty()) {
+        b.push(l.len() as u8);
+        b.extend_from_slice(l.as_bytes());
+    }
+    b.push(0);
+    hex(&b)
+}
+
+/// One well-formed RDATA (wire form) for every record type the zone parser or the API can put into a zone —
+/// DNSSEC types included (DS at a delegation, CDS / CDNSKEY / KEY / SIG / DNSKEY / NSEC3PARAM / NSEC …).
+/// Tokens that the real codec does not take unchanged are dropped (checked on every run: `usable_types`).
+pub fn every_type_rdata() -> Vec<(u16, String)> {
+    let d32 = "00112233445566778899aabbccddeeff00112233445566778899aabbccddeeff";
+    let key = "030100019a8b7c6d5e4f30211203f4e5d6c7b8a99a8b7c6d5e4f30211203f4e5d6c7b8a9";
+    vec![
+        (1, "0a000005".into()),
+        (28, "20010db8000000000000000000000005".into()),
+        (15, format!("000a{}", wire_name("mail.example.com."))),
+        (16, "027478".into()),
+        (33, format!("000100020035{}", wire_name("srv.example.com."))),
+        (13, "03787878027979".into()),
+        (257, "000569737375656c657473656e63727970742e6f7267".into()),
+        (43, format!("30390802{d32}")),
+        (59, format!("30390802{d32}")),
+        (48, format!("01010308{key}")),
+        (60, format!("01010308{key}")),
+        (25, format!("00000308{key}")),
+        (24, format!("0001080200000e105f0000005e0000003039{}{}", wire_name("example.com."), "00112233445566778899aabbccddeeff")),
+        (46, format!("0001080200000e105f0000005e0000003039{}{}", wire_name("example.com."), "00112233445566778899aabbccddeeff")),
+        (51, "0100000a04aabbccdd".into()),
+        (47, format!("{}000140", wire_name("z.example.com."))),
+        (52, format!("030101{d32}")),
+        (44, "0101000102030405060708090a0b0c0d0e0f10111213".into()),
+        (35, "0064000a0155074532552b7369700000".into()),
+        (64, "000100".into()),
+        (65, "000100".into()),
+        (61, "99010d045e".into()),
+        (99, "0576737066310a".into()),
+        (65280, "deadbeef".into()),
+        (10, "00ff".into()),
+    ]
+}
+
+/// the entries of `every_type_rdata` that survive parse → emit unchanged at `owner`
+pub fn usable_types(owner: &str) -> Vec<String> {
+    let name = name_tok(&n(owner));
+    let mut out = vec![];
+    for (t, rd) in every_type_rdata() {
+        let tok = format!("{name},{t},1,300,x{rd}");
+        match parse_rec(&tok) {
+            Some(r) if rec_tok(&r) == tok => out.push(tok),
+            _ => {}
+        }
+    }
+    out
+}
+
+/// does the journal's row encoder (`BinEncoder::new`, 65 535 octets) take this record?
+pub fn row_fits(r: &Record) -> bool {
+    let mut buf = Vec::new();
+    let mut enc = BinEncoder::new(&mut buf);
+    r.emit(&mut enc).is_ok()
 }
 
 /// set for the thorough tier: RDATA of 16 000 … 65 000 octets are generated at random as well
@@ -1073,16 +1432,27 @@ pub fn gen_large(rng: &mut Rng) -> Record {
 pub fn gen_odd(rng: &mut Rng, prereq: bool) -> Record {
     let picked = pick_name(rng);
     let name = name_tok(&n(&cased(rng, picked)));
-    let t = *rng.pick(&[T_NULL, T_NULL, T_NULL, 65280, T_MAILB, T_MAILA]);
+    if !prereq && rng.chance(1, 8) {
+        // an "SOA" without RDATA for the apex: `RecordSet::insert` ignores it (wrong rdata for SOA update)
+        return parse_rec(&format!("{},6,1,300,-", name_tok(&n("example.com.")))).expect("soa0");
+    }
+    let t = *rng.pick(&[T_NULL, T_NULL, T_NULL, 65280, T_MAILB, T_MAILA, 43]);
     let class = *rng.pick(&[C_ANY, C_ANY, C_NONE, C_IN]);
     let rd = if rng.chance(2, 3) { *rng.pick(&["x00ff", "x01", "x00ff"]) } else { "-" };
     let ttl = if class == C_IN && !prereq { 300 } else { 0 };
+    let ds = format!("x{}", every_type_rdata().into_iter().find(|x| x.0 == 43).map(|x| x.1).unwrap_or_default());
+    let rd = if t == 43 && rd != "-" { ds.as_str() } else { rd };
     parse_rec(&format!("{name},{t},{class},{ttl},{rd}")).expect("odd record")
 }
 
 pub fn gen_prereq(rng: &mut Rng) -> Record {
     if rng.chance(1, 25) {
         return gen_odd(rng, true);
+    }
+    if rng.chance(1, 25) {
+        // DS at / below the delegation: `inner_lookup` answers a DS query at the cut itself, not with the referral
+        let nm = *rng.pick(&["sub.example.com.", "x.sub.example.com.", "a.example.com."]);
+        return with_class(Record::update0(n(&cased(rng, nm)), 0, RecordType::DS), *rng.pick(&[C_ANY, C_NONE]));
     }
     let picked = pick_name(rng);
     let name = n(&cased(rng, picked));
@@ -1194,8 +1564,18 @@ fn gen_history(rng: &mut Rng) -> Vec<String> {
         let k = if i + 1 == len { rng.below(20) } else { rng.below(18) };
         if k < 16 {
             let m = gen_msg(rng);
-            // one message in five goes through the real `update()` as a TSIG-signed wire message
-            v.push(if rng.chance(1, 5) { m.replacen("upd ", "updf ", 1) } else { m });
+            // one message in five goes through the real `update()` as a TSIG-signed wire message, one in eight through
+            // the server's dispatch (`Catalog`), a few of those unsigned / with a foreign key / with a wrong zone section
+            let k = rng.below(40);
+            v.push(if k < 8 {
+                m.replacen("upd ", "updf ", 1)
+            } else if k < 13 {
+                m.replacen("upd ", "updc ok ", 1)
+            } else if k < 15 {
+                m.replacen("upd ", &format!("updc {} ", *rng.pick(&["unsigned", "badkey", "badsig", "expired", "ztype", "nozone", "noupdate", "secondary", "external"])), 1)
+            } else {
+                m
+            });
         } else if k < 18 {
             let np = rng.range(1, 2);
             let mut s = String::from("pre");
@@ -1218,10 +1598,55 @@ fn gen_history(rng: &mut Rng) -> Vec<String> {
     v
 }
 
+/// a history on a DNSSEC-enabled handler (only `upd` lines; no model side)
+fn gen_dnssec_history(rng: &mut Rng) -> Vec<String> {
+    let kw = if rng.chance(1, 2) { "begind" } else { "begind3" };
+    let mut v = vec![gen_begin(rng, kw)];
+    for _ in 0..rng.range(2, 6) {
+        v.push(gen_msg(rng));
+    }
+    v.push("end".into());
+    v
+}
+
+/// zones the API can build but no zone file should: no SOA at all, or an "SOA" with empty RDATA — driven by `raw`
+/// (`update_records` alone: model correspondence without oracle) through `serial()` / `increment_soa_serial` / the
+/// SOA arms of `RecordSet::insert` that a well-formed zone never reaches
+fn gen_broken_zone_history(rng: &mut Rng) -> Vec<String> {
+    let full = gen_begin(rng, "begin");
+    let mut toks: Vec<String> = full.split(' ').map(String::from).collect();
+    // tokens: begin origin soa ...
+    match rng.below(3) {
+        0 => {
+            toks.remove(2);
+        }
+        1 => {
+            let soa = toks[2].clone();
+            let parts: Vec<&str> = soa.split(',').collect();
+            toks[2] = format!("{},{},{},{},-", parts[0], parts[1], parts[2], parts[3]);
+        }
+        _ => {
+            // a class-CH record among the initial ones (`upsert` refuses the foreign class)
+            toks.push(format!("{},1,3,300,x0a000001", name_tok(&n("a.example.com."))));
+        }
+    }
+    let mut v = vec![toks.join(" ")];
+    for _ in 0..rng.range(1, 4) {
+        let mut s = String::from("raw");
+        for _ in 0..rng.range(1, 3) {
+            s.push(' ');
+            s.push_str(&rec_tok(&gen_update(rng)));
+        }
+        v.push(s);
+    }
+    v.push("end".into());
+    v
+}
+
 pub fn run(o: &Opts, rec: &mut Recorder) {
     GIANTS.store(o.thorough(), std::sync::atomic::Ordering::Relaxed);
     rec.rule = "an `upd`/`pre` line that changed the zone or was judged after an earlier change of the same history (distinct by case text)".into();
-    let mut hist = Hist { rt: rt(), origin: Name::root(), h: None, twin: None, changes: 0 };
+    let mut hist = Hist { rt: rt(), origin: Name::root(), h: None, cat: None, dnssec: false, nsec3: false, panicked: false, initial: vec![], twin: None, changes: 0 };
     for l in &o.pre_lines {
         exec(l, &mut hist, rec);
     }
@@ -1230,7 +1655,12 @@ pub fn run(o: &Opts, rec: &mut Recorder) {
     let histories = o.n(20_000, 400_000);
     for _ in 0..histories {
         let mut r = rng.fork();
-        for l in gen_history(&mut r) {
+        let h = match r.below(40) {
+            0 | 1 => gen_dnssec_history(&mut r),
+            2 => gen_broken_zone_history(&mut r),
+            _ => gen_history(&mut r),
+        };
+        for l in h {
             exec(&l, &mut hist, rec);
         }
     }
